@@ -28,6 +28,8 @@ def spec_mutants():
         out.append(('GlobalCaches.DegreePins=FALSE', 'C14_DegreeOwn', r.violated))
         r = tlc.run('GlobalCaches', cfg='GlobalCachesBuf', wd=wd, overrides={'MemoChecksContent': 'FALSE'}, expect_violation=True)
         out.append(('GlobalCaches.MemoChecksContent=FALSE', 'C14_BufferCurrent', r.violated))
+        r = tlc.run('RecLimit', wd=wd, overrides={'SavedPerEntry': 'FALSE'}, expect_violation=True)
+        out.append(('RecLimit.SavedPerEntry=FALSE', 'C20_LimitRestored', r.violated))
         # rule-level mutants of the derivative table / simplifier (edited copy of the module)
         src = open(os.path.join(wd, 'Diff.tla')).read()
         for name, old, new, inv in (
